@@ -59,7 +59,31 @@ def replay(snapshot, index, removed, added):
 
 def same(a, b):
     """Equal lists with equal element types (1 vs True vs 1.0 matter for validated items)."""
-    return len(a) == len(b) and all(type(x) is type(y) and x == y for x, y in zip(a, b))
+    return len(a) == len(b) and all(type(x) is type(y) and (x is y or x == y) for x, y in zip(a, b))
+
+
+class NeverEqual:
+    """An object that is not equal to anything, itself included: a list still finds it by IDENTITY."""
+
+    def __eq__(self, other):
+        return False
+    __hash__ = object.__hash__
+
+    def __repr__(self):
+        return "NeverEqual()"
+
+
+ODD = [float("nan"), NeverEqual()]
+
+
+class GenFault(RuntimeError):
+    pass
+
+
+def failing_gen(items):
+    for x in items:
+        yield x
+    raise GenFault("the iterable fails after %d items" % len(items))
 
 
 def judge_events(before, after, events, ctx, what):
@@ -169,6 +193,20 @@ def apply_op(lst, op, validate):
         del lst[IdxObj(op[1])]
     elif name == "remove":
         lst.remove(op[1])
+    # items that are members only by IDENTITY (x != x): list.remove / index / `in` find them all the same
+    elif name == "append_odd":
+        lst.append(v(ODD[op[1] % 2]))
+    elif name == "remove_odd":
+        lst.remove(ODD[op[1] % 2])
+    # an iterable that raises AFTER it has handed over some items (not a TraitError): nothing of it may stay
+    elif name == "extend_gen_fail":
+        # (the model validates each item as the iterable hands it over: whichever fault comes first decides)
+        lst.extend([v(x) for x in failing_gen(op[1])] if is_model else failing_gen(op[1]))
+    elif name == "iadd_gen_fail":
+        if is_model:
+            lst += [v(x) for x in failing_gen(op[1])]
+        else:
+            lst += failing_gen(op[1])
     elif name == "reverse":
         lst.reverse()
     elif name == "sort":
@@ -246,7 +284,7 @@ def run_single(L, op, ctx, validate=None, tl=None, model=None, vreset=None, ones
         return tl, model
     if not same(list(tl), m2):
         ctx.fail("refine/contents", "TraitList %r, list %r after %s on %r" % (list(tl), m2, what, before))
-    if op[0] in ("pop", "pop0") and not (type(r1) is type(r2) and r1 == r2):
+    if op[0] in ("pop", "pop0") and not (type(r1) is type(r2) and (r1 is r2 or r1 == r2)):
         ctx.fail("refine/result", "pop returned %r, list %r: %s" % (r1, r2, what))
     judge_events(before, list(tl), events, ctx, what + " before=%r" % (before,))
     return tl, m2
@@ -402,6 +440,9 @@ OP = st.one_of(
     st.tuples(st.just("setslice_self"), st.tuples(OPT_IDX, OPT_IDX, st.sampled_from([None, None, 1, 2, -1]))),
     st.tuples(st.just("imul"), st.one_of(st.integers(-1, 3), st.sampled_from([0.5, 0.0, -1.0, 2.5, "5", None, True, False]))),
     st.tuples(st.just("remove"), ITEM),
+    st.tuples(st.just("append_odd"), st.integers(0, 1)), st.tuples(st.just("remove_odd"), st.integers(0, 1)),
+    st.tuples(st.just("remove_odd"), st.integers(0, 1)),
+    st.tuples(st.just("extend_gen_fail"), ITEMS), st.tuples(st.just("iadd_gen_fail"), ITEMS),
     st.tuples(st.just("reverse")),
     st.tuples(st.just("sort"), st.booleans()),
     st.tuples(st.just("clear")),
